@@ -16,6 +16,10 @@ BASES = {
     "date": ({"type": "string", "format": "date"}, "2020-01-31", "2001-02-03"), "datetime": ({"type": "string", "format": "date-time"}, "2020-01-31T10:20:30", None),
     "uuid": ({"type": "string", "format": "uuid"}, "12345678-1234-5678-1234-567812345678", None),
     "enumstr": ({"type": "string", "enum": ["a", "b"]}, "a", "b"), "enumint": ({"type": "integer", "enum": [1, 2]}, 1, 2),
+    # present-but-FALSY values must stay 'present': 0, "", False, {} and [] are not 'absent'
+    "enumint0": ({"type": "integer", "enum": [0, 1]}, 0, None), "enumstr0": ({"type": "string", "enum": ["", "x"]}, "", None),
+    "int0": ({"type": "integer"}, 0, None), "str0": ({"type": "string"}, "", None), "bool0": ({"type": "boolean"}, False, None),
+    "model0": ({"$ref": REF + "Opt"}, {}, None), "listmodel0": (arr({"$ref": REF + "Sub"}), [], None), "listdate0": (arr({"type": "string", "format": "date"}), [], None),
     "model": ({"$ref": REF + "Sub"}, {"n": 1}, None), "liststr": (arr({"type": "string"}), ["x"], None), "listdate": (arr({"type": "string", "format": "date"}), ["2020-01-31"], None),
     "listmodel": (arr({"$ref": REF + "Sub"}), [{"n": 2}], None), "any": ({}, "anything", None),
 }
@@ -57,8 +61,15 @@ def docs():
     out = []
     for notation in NOTATIONS:
         version = "3.0.3" if notation == "n30" else "3.1.0"
-        S = {"Sub": obj({"n": {"type": "integer"}}, required=["n"])}
+        S = {"Sub": obj({"n": {"type": "integer"}}, required=["n"]), "Opt": obj({"w": {"type": "string"}})}
         expect = {}
+        if notation == "plain":
+            # allOf refinement must not lose requiredness: `when`/`count` are required by Event and refined (not restated) by Dated
+            S["Event"] = obj({"when": {"type": "string"}, "count": {"type": "number"}, "note": {"type": "string"}}, required=["when", "count"])
+            S["Dated"] = {"allOf": [{"$ref": REF + "Event"}, obj({"when": {"type": "string", "format": "date"}, "count": {"type": "integer"}})]}
+            S["DatedRev"] = {"allOf": [obj({"when": {"type": "string", "format": "date"}, "count": {"type": "integer"}}), {"$ref": REF + "Event"}]}
+            for cn in ("Event", "Dated", "DatedRev"):
+                expect[cn] = {"kind": "allof", "nullable": False, "sample": None, "default": None, "mandatory": ["when", "count"], "optional": ["note"]}
         params_paths = {}
         for kind, (base, sample, dflt) in BASES.items():
             wn = with_notation(base, notation, kind)
@@ -105,6 +116,14 @@ def work(args):
                     out["classes"].append({"schema": sname, "missing": True, "expect": ex})
                     continue
                 rec = {"schema": sname, "cls": cname, "expect": ex, "props": {}}
+                if ex["kind"] == "allof":
+                    rec["trials"] = []
+                    ops.append({"op": "signature", "module": "models", "name": cname})
+                    meta.append(("sig", rec, None, None))
+                    ops.append({"op": "roundtrip", "cls": cname, "data": {"note": "only the optional one"}})
+                    meta.append(("allof_missing", rec, None, None))
+                    out["classes"].append(rec)
+                    continue
                 for p in (m.required_properties or []) + (m.optional_properties or []):
                     k = ab.kind(p)
                     ent = {"required": p.required, "type_string": p.get_type_string(), "decl": p.to_string(), "ck": ab.ckind(k)}
@@ -170,6 +189,8 @@ def work(args):
                         ent["unrepresentable"] = repr(e)
                     ent["k"] = ab.ckind(("model", rec["cls"]))
                     rec["trials"].append(ent)
+                elif what == "allof_missing":
+                    rec["missing_required"] = r
                 elif what == "sig":
                     rec["signature"] = r
                 elif what == "epsig":
@@ -204,7 +225,7 @@ def admits_none_str(ts: str) -> bool:
 
 def known_class(label, rec):
     """the only listed C10 defect: OpenAPI 3.0 `nullable: true` written on an inline enum schema is ignored"""
-    if label == "n30" and rec["expect"]["kind"] in ("enumstr", "enumint"):
+    if label == "n30" and rec["expect"]["kind"].startswith("enum"):
         return "enum_nullable30_ignored"
     return None
 
@@ -241,6 +262,16 @@ def run(run, tier, replay=None):
                 run.note_case({"doc": r["label"], "schema": rec["schema"], "rejected": True}, nontrivial=False, kind="rejected")
                 continue
             ex = rec["expect"]
+            if ex["kind"] == "allof":
+                run.note_case({"doc": r["label"], "cls": rec["cls"], "composed": True}, kind="allof_required")
+                sig = rec.get("signature") or {}
+                byname = {sp["name"]: sp for sp in sig.get("params", [])}
+                for n in ex["mandatory"]:
+                    if n not in byname or byname[n]["has_default"]:
+                        run.violation("oracle", {"label": r["label"], "doc": r["doc"], "cls": rec["cls"], "param": byname.get(n), "note": f"property {n!r} is required by a member schema but is not a mandatory constructor argument of the composed class"})
+                if "dec_exc" not in (rec.get("missing_required") or {"dec_exc": 1}):
+                    run.violation("oracle", {"label": r["label"], "doc": r["doc"], "cls": rec["cls"], "impl": rec.get("missing_required"), "note": "an instance without the required properties is accepted by from_dict"})
+                continue
             for pname, ent in rec["props"].items():
                 run.note_case({"doc": r["label"], "cls": rec["cls"], "prop": pname, "type": ent["type_string"]}, kind="type")
                 if "cty" in ent:
@@ -280,6 +311,13 @@ def run(run, tier, replay=None):
                             run.violation("oracle", {"label": r["label"], "doc": r["doc"], "cls": rec["cls"], "instance": t["inst"], "impl": res, "note": "absent optional property does not read back as UNSET"})
                         if "o" in (res.get("out") or {}):
                             run.violation("oracle", {"label": r["label"], "doc": r["doc"], "cls": rec["cls"], "instance": t["inst"], "impl": res, "note": "UNSET property was transmitted"})
+                elif t["state"] == "present":
+                    if "dec_exc" not in res and "enc_exc" not in res:
+                        o = res["obj"]["fields"].get("o")
+                        if o is not None and o["t"] == "unset":
+                            run.violation("oracle", {"label": r["label"], "doc": r["doc"], "cls": rec["cls"], "instance": t["inst"], "impl": res, "note": "a PRESENT optional value (possibly falsy: 0, '', False, {}, []) reads back as UNSET"})
+                        if "o" not in (res.get("out") or {}):
+                            run.violation("oracle", {"label": r["label"], "doc": r["doc"], "cls": rec["cls"], "instance": t["inst"], "impl": res, "note": "a PRESENT optional value was not transmitted"})
                 elif t["state"] == "null" and ex["nullable"]:
                     if "dec_exc" in res or "enc_exc" in res:
                         report(run, r["label"], rec, {"label": r["label"], "doc": r["doc"], "cls": rec["cls"], "instance": t["inst"], "impl": res, "note": "null rejected although the schema is nullable"})
